@@ -21,12 +21,13 @@ def PrintPureStatement (init : PrinterState) : Prop :=
 
 /-! ### the fixed code: the state is a collection and never changes
 
-`print_pure` for the fixed code is delivered as `print_pure_partial`: every access to the state goes through
-`printDirectives` → `keepCustom` → `PrinterState.member` (by construction of the model, checked against the
-real printer by the history correspondence), and these three are proved state-preserving and pure for a
-collection-valued state. The lift through the (state-passing) layout functions `printArguments`,
-`printFields`, `printType`, `printSchema`, `runHistory` to `PrintPureStatement initialCollection` is not
-machine-checked yet (open problem). -/
+`print_pure` is proved IN FULL for the fixed code (collection-valued state): every access to the state goes through
+`printDirectives` → `keepCustom` → `PrinterState.member`; these are state-preserving for a collection
+(`printDirectives_state_fixed`), the lift through the state-passing layout functions is `printSchema_state_fixed`, and the
+induction over the history is `print_pure` (any collection: `print_pure_any_collection`; with `include_introspection`:
+`print_pure_all_options`).  `print_pure_partial` (registered name) is the lemma that the directive filter is the pure
+`filter keepPred`.  What is NOT in the model: nothing of the printer's option space; the model is tied to the code by
+the history correspondence (every call of every history, all four options, compared with the real text). -/
 
 private theorem pair_of_snd {α β} (x : α × β) (b : β) (h : x.2 = b) : x = (x.1, b) := by
   cases x; simp_all
@@ -137,6 +138,48 @@ theorem print_pure : PrintPureStatement initialCollection := by
   | cons c rest ih =>
     simp only [runHistory, List.map]
     rw [show (printSchema c.1 c.2.1 c.2.2 initialCollection).2 = initialCollection from printSchema_state_fixed _ _ _ _]
+    rw [ih]
+
+/-! #### all four options: `include_introspection` too -/
+
+/-- serialising with ALL options (indent, descriptions, custom schema directives, introspection) is a pure function of
+    schema, options and the library's constants -/
+def PrintPureStatementX (init : PrinterState) : Prop :=
+  ∀ calls : List (Opts × Bool × Builtins × SchemaD × Apps),
+    runHistoryX init calls = calls.map fun c => (printSchemaX c.1 c.2.1 c.2.2.1 c.2.2.2.1 c.2.2.2.2 init).1
+
+/-- without the option the extended printer is the printer -/
+theorem printSchemaX_off (o : Opts) (b : Builtins) (s : SchemaD) (apps : Apps) (st : PrinterState) :
+    printSchemaX o false b s apps st = printSchema o s apps st := by
+  simp only [printSchemaX, printSchema, mapSt, Bool.false_eq_true, if_false, List.append_nil, List.cons_append, List.nil_append, List.append_assoc]
+
+theorem printSchemaX_state_fixed (o : Opts) (intro : Bool) (b : Builtins) (s : SchemaD) (apps : Apps) (ns : List String) :
+    (printSchemaX o intro b s apps (.collection ns)).2 = .collection ns := by
+  simp only [printSchemaX]
+  rw [printSchemaDefinition_coll]
+  rw [mapSt_coll _ ns (fun i d => printDirectiveDefinition_coll s o apps d ns)]
+  rw [mapSt_coll _ ns (fun i d => printDirectiveDefinition_coll s o apps d ns)]
+  exact mapSt_coll _ ns (fun i t => printType_coll s o apps t ns) _ 0
+
+/-- **print_pure_all_options** — `print_pure` for the whole option space of the property (`include_introspection`
+    included), for EVERY collection-valued state: the k-th output of any history is the output of that call alone. -/
+theorem print_pure_all_options (ns : List String) : PrintPureStatementX (.collection ns) := by
+  intro calls
+  induction calls with
+  | nil => rfl
+  | cons c rest ih =>
+    simp only [runHistoryX, List.map]
+    rw [printSchemaX_state_fixed]
+    rw [ih]
+
+/-- `print_pure` for every collection-valued state (not only the initial one) -/
+theorem print_pure_any_collection (ns : List String) : PrintPureStatement (.collection ns) := by
+  intro calls
+  induction calls with
+  | nil => rfl
+  | cons c rest ih =>
+    simp only [runHistory, List.map]
+    rw [printSchema_state_fixed]
     rw [ih]
 
 /- …and it is FALSE for today's generator-valued state: `PrintPureStatement initialGenerator` would make the
